@@ -48,6 +48,9 @@ def write_workspace(root, cases, feature, shard_fn=None, order_rng=None):
             lines.append("pub mod c%d {" % c.cid)
             lines.append("#[entrait::%s(%s)]" % (c.macro, c.attr.replace("\n", " ")))
             index[(name, len(lines))] = c.cid
+            # an entrait attribute written inside the item (a nested invocation) is recorded at its own line
+            for j in range(len(c.item.split("\n"))):
+                index[("nested", name, len(lines) + 1 + j)] = c.cid
             lines.extend(c.item.split("\n"))
             lines.append("}")
         with open(os.path.join(d, "src", "lib.rs"), "w") as fh:
@@ -132,10 +135,20 @@ def attribute(rows, index, cases):
     unattributed = 0
     for r in rows:
         m = SITE_RE.search(r.get("site", ""))
-        if not m or (m.group(1), int(m.group(2))) not in index:
+        k = (m.group(1), int(m.group(2))) if m else None
+        if k is not None and k not in index and ("nested",) + k in index:
+            # an invocation the user wrote inside the case's item: a record of its own, numbered from 1000 so that it is never
+            # taken for the case's own record (nth 0) or for the nested invocation the macro itself emits (nth 1)
+            k = ("nested",) + k
+            r["cid"] = index[k]
+            r["nth"] = 1000 + per_site.get(k, 0)
+            r["nested"] = True
+            per_site[k] = per_site.get(k, 0) + 1
+            attributed.append(r)
+            continue
+        if k is None or k not in index:
             unattributed += 1
             continue
-        k = (m.group(1), int(m.group(2)))
         r["cid"] = index[k]
         r["nth"] = per_site.get(k, 0)
         per_site[k] = r["nth"] + 1
